@@ -100,8 +100,17 @@ async def ble_case(ctx, negotiated, body_len, secure, status, cuts, rbody_len, o
         c2a, a2c = rng.randbytes(32), rng.randbytes(32)
         enc_key, dec_key = EncryptionKey(c2a), DecryptionKey(a2c)
         sess = SessionSim(c2a, a2c)
-    handle = FakeHandle("00000025-0000-1000-8000-0026BB765291", 20, properties=("read", "write") if seed % 2 else ("read", "write-without-response"))
+    # the size comes from the library's own helper for a link of ATT_MTU negotiated + 3 in two thirds of the cases; bleak's
+    # per-characteristic figure is absent, the classic 20, exactly MTU - 3 (what bleak reports once the MTU is known) or smaller
+    link = (negotiated * 31 + body_len * 7 + (1 if secure else 0)) % 6
+    max_wwr = {0: None, 1: None, 2: None, 3: 20, 4: negotiated, 5: max(1, negotiated - 16)}[link]
+    if max_wwr is not None and max_wwr > negotiated:
+        max_wwr = negotiated
+    handle = FakeHandle("00000025-0000-1000-8000-0026BB765291", 20, properties=("read", "write") if seed % 2 else ("read", "write-without-response"), max_wwr=max_wwr)
     client = FakeGattClient(negotiated)
+    if link >= 2:
+        client.real_helper = True
+        ctx.count("ble_sizes_from_the_real_helper")
     ep = GattEndpointSim(responder, decrypt=sess.decrypt if sess else None, encrypt=sess.encrypt if sess else None)
     client.endpoints[handle] = ep
     desc = f"size={negotiated} body={body_len} secure={secure} status={status} cuts={list(cuts or [])[:6]} rbody={rbody_len} negative={negative}"
